@@ -230,6 +230,8 @@ def main():
             new_viol.append((c, r, unknown))
 
     replay_dir = os.path.join(VERIF, 'evidence', 'replays', prop)
+    if not a.no_evidence:
+        shutil.rmtree(replay_dir, ignore_errors=True)
     replay_paths = []
     if new_viol:
         os.makedirs(replay_dir, exist_ok=True)
